@@ -1,0 +1,23 @@
+//go:build verif
+
+package fuse
+
+import (
+	"bazil.org/fuse"
+	"bazil.org/fuse/fs"
+	"github.com/superfly/litefs"
+)
+
+// VerifNewUnmounted returns a FileSystem whose node and handle methods can be
+// called in-process without a kernel mount (verification builds only).
+// Kernel notifications fail on the unconnected fuse.Conn and are ignored by
+// the callers, exactly as a failed invalidation would be.
+func VerifNewUnmounted(path string, store *litefs.Store) *FileSystem {
+	fsys := NewFileSystem(path, store)
+	fsys.conn = &fuse.Conn{}
+	fsys.server = fs.New(fsys.conn, nil)
+	return fsys
+}
+
+// VerifRoot returns the root node.
+func (fsys *FileSystem) VerifRoot() *RootNode { return fsys.root }
